@@ -361,10 +361,12 @@ def lines_for(m, tier):
         return rel + [UNKNOWN_OPT]
 
     def tailwords_for(cur):
+        # behind '--' also a sub-command name written like an option: it is an argument value all the same
+        dashed = ["--" + NAMES[c] for c in m.kids[cur]][:2]
         if level >= 2:
-            return names + [U]
+            return names + [U] + dashed
         kid = [NAMES[c] for c in m.kids[cur]]
-        return kid + [x for x in names[:1] if x not in kid] + [U]
+        return kid + [x for x in names[:1] if x not in kid] + [U] + dashed
 
     def variants(lead, cur, rich):
         emit(lead)
